@@ -86,10 +86,10 @@ def build(ctx):
         def run_dt():
             unj = {PJ: (pj if PDT[0] == "f8" else tm.var("pj", tm.I))}
             f = ctx.engine.func(FL + name)
-            outs = ctx.engine.run_paths(f, lambda: ([fluid_obj(ctx), parr()] + list(extra), {}), pc=[tm.ge(n, tm.const(1))])
+            outs = [o_ for o_ in ctx.engine.run_paths(f, lambda: ([fluid_obj(ctx), parr()] + list(extra), {}), pc=[tm.ge(n, tm.const(0))]) if o_.kind != "infeasible"]
             rets = [o for o in outs if o.kind == "return"]
             if len(rets) != len(outs) or not rets:
-                return be.Verdict(be.REFUTED, "CAS", witness={}, detail=f"Fluid.{name} raises on some path: {[o.value for o in outs if o.kind != 'return']}")
+                return be.Verdict(be.REFUTED, "CAS", witness={}, detail=f"Fluid.{name} raises on some path: {[(o.value, [str(c_) for c_ in o.pc][:3]) for o in outs if o.kind != 'return']}")
             spec_outs = paths(ctx, target, targs())
             spec = sx.merge_values([(tm.land(*o.pc), o.value) for o in spec_outs if o.kind == "return"])
             vlast = None
@@ -146,7 +146,7 @@ def build(ctx):
                 fl = Fl(c["T"], c["api"], c["gg"], c["R"], c["S"])
                 args = [c[k] for k in extra_names]
                 pbr = real(OIL + "pressure_bubblepoint_Standing")(c["T"], c["api"], c["gg"], c["R"])
-                for ps in (np.array([c["pj"], 500.0, 1500.0, 3000.0, 6000.0, pbr]), np.arange(500, 6001, 500)):
+                for ps in (np.array([c["pj"], 500.0, 1500.0, 3000.0, 6000.0, pbr]), np.arange(500, 6001, 500), np.array([]), np.array([2500.0])):
                     r_ = _cmp(fl, name, args, target, order, c, ps)
                     if r_ is not None:
                         return r_
@@ -180,16 +180,26 @@ def build(ctx):
         f = ctx.engine.func(FL + "pressure_bubblepoint")
         outs = ctx.engine.run_paths(f, lambda: ([fluid_obj(ctx)], {}))
         spec = one_path(ctx, OIL + "pressure_bubblepoint_Standing", [T, api, gg, R])
-        if len(outs) != 1 or outs[0].kind != "return":
+        outs = [o for o in outs if o.kind != "infeasible"]
+        if not outs or any(o.kind != "return" for o in outs):
             return be.Verdict(be.REFUTED, "CAS", witness={}, detail="unexpected paths")
-        return with_models(be.prove_equal_cas(outs[0].value, spec.value, OIL_BOX, seed=ctx.seed), outs[0])
+        # the facade identity is for ALL parameter sets: dead oil (GOR 0, as in the class docstring) included
+        vals = {id(o.value): o.value for o in outs}
+        if len(vals) != 1:
+            return be.Verdict(be.REFUTED, "CAS", witness={}, detail="the result depends on a branch the stand-alone correlation does not have")
+        return with_models(be.prove_equal_cas(outs[0].value, spec.value, dict(OIL_BOX, R=(0.0, 2500.0)), seed=ctx.seed), outs[0])
 
     def bubble_replay(w):
         Fl = real(FLUID + "Fluid")
-        c = dict(T=200.0, api=35.0, gg=0.8, R=650.0)
-        got = Fl(c["T"], c["api"], c["gg"], c["R"]).pressure_bubblepoint()
-        want = real(OIL + "pressure_bubblepoint_Standing")(c["T"], c["api"], c["gg"], c["R"])
-        return {"reproduced": not close(got, want, 1e-12), "input": c, "observed": got, "required": want}
+        cands = [dict(T=200.0, api=35.0, gg=0.8, R=650.0), dict(T=200.0, api=35.0, gg=0.8, R=0.0), dict(T=120.0, api=20.0, gg=1.1, R=4.0), dict(T=350.0, api=55.0, gg=0.56, R=2500.0)]
+        if all(isinstance(w.get(k_), (int, float)) for k_ in ("T", "api", "gg", "R")):
+            cands.insert(0, {k_: float(w[k_]) for k_ in ("T", "api", "gg", "R")})
+        for c in cands:
+            got = Fl(c["T"], c["api"], c["gg"], c["R"]).pressure_bubblepoint()
+            want = real(OIL + "pressure_bubblepoint_Standing")(c["T"], c["api"], c["gg"], c["R"])
+            if not close(got, want, 1e-12):
+                return {"reproduced": True, "input": c, "observed": float(got), "required": float(want)}
+        return {"reproduced": False}
 
     obs.append(Obligation("fluid.pressure_bubblepoint", "Fluid.pressure_bubblepoint() == pressure_bubblepoint_Standing(temperature, api_gravity, gas_specific_gravity, solution_gor_initial)", bubble,
                           [FL + "pressure_bubblepoint", OIL + "pressure_bubblepoint_Standing"], "CAS", bubble_replay))
